@@ -3,6 +3,7 @@
 package checks
 
 import (
+	"io"
 	"context"
 	"fmt"
 	"os"
@@ -129,6 +130,20 @@ func c10StreamScripts() []c11Script {
 			},
 			client: func(conn *memConn, got <-chan uuid.UUID, w *world.World) {
 				w.Sub.Pull(cctx(), &pubsubpb.PullRequest{Subscription: c10SubSrc, MaxMessages: 10, ReturnImmediately: true})
+			}},
+		// another consumer of the SAME subscription comes and goes while this stream
+		// waits (a second stream that the client hangs up on at once): the waiting
+		// stream's registration must survive that
+		{name: "stream waiter: a second stream on the subscription ends, then publish", fc: wide, want: 1, warm: true, boundQuick: 1, boundThorough: 2,
+			client: func(conn *memConn, got <-chan uuid.UUID, w *world.World) {
+				var idStr string
+				if err := w.DB.QueryRow("SELECT id FROM subscriptions WHERE name = ?", c11Sub).Scan(&idStr); err != nil {
+					return
+				}
+				id := uuid.MustParse(idStr)
+				other := &actions.MessageStreamer{Client: w.Client, SubscriptionID: &id, SubscriptionName: c11Sub, AutomaticNack: true}
+				_ = other.Go(vsql.WithThread(context.Background(), "stream2"), &hangUpConn{fc: &actions.FlowControl{MaxMessages: 10, MaxBytes: 100000}})
+				w.Pub.Publish(cctx(), &pubsubpb.PublishRequest{Topic: c11Topic, Messages: []*pubsubpb.PubsubMessage{{Data: payloadOf(10)}}})
 			}},
 		{name: "stream waiter: seek re-opens a message", fc: wide, npub: 1, want: 1,
 			prep: func(w *world.World) error {
@@ -497,4 +512,22 @@ func init() {
 		}
 		return out, v, err
 	})
+}
+
+// hangUpConn: a client that sends its flow-control settings and hangs up.
+type hangUpConn struct {
+	fc   *actions.FlowControl
+	sent bool
+}
+
+func (c *hangUpConn) Close() error { return nil }
+func (c *hangUpConn) Receive(ctx context.Context) (*actions.MessageStreamRequest, error) {
+	if !c.sent {
+		c.sent = true
+		return &actions.MessageStreamRequest{FlowControl: c.fc}, nil
+	}
+	return nil, io.EOF
+}
+func (c *hangUpConn) Send(ctx context.Context, d *actions.SubscriptionMessageDelivery) error {
+	return nil
 }
